@@ -95,6 +95,8 @@ type world struct {
 	byBlob map[string]int
 	data   []byte
 	ops    []op
+	big    []byte // source of long messages (hardening)
+	nAlpha int    // w.ops[:nAlpha] is the alphabet of the exploration; the rest are scripted operations
 }
 
 func run(c *vf.Ctx) {
@@ -119,13 +121,14 @@ func run(c *vf.Ctx) {
 		w.byBlob[string(id.blob)] = i
 	}
 	w.ops = alphabet()
+	w.nAlpha = len(w.ops)
 	c.Set("alphabet_ops", len(w.ops))
 
 	depth := 4
 	if c.Thorough {
 		depth = 6
 	}
-	idx := make([]int, len(w.ops))
+	idx := make([]int, w.nAlpha)
 	for i := range idx {
 		idx[i] = i
 	}
@@ -145,6 +148,7 @@ func run(c *vf.Ctx) {
 		plainDepth = 4
 	}
 	w.unmerged(plainDepth)
+	w.hardening()
 
 	w.totality()
 }
